@@ -821,77 +821,25 @@ def gen_l1_case(rng, voc, malformed=0.2):
 # the defects of the unchanged tree found while building C10/C11 (see the report); each is a genuine violation of
 # the statement, recognised by its exact effect and routed through ctx.report_failure under its key:
 PENDING_FINDINGS = [
-    {'key': 'site:GtkDocAnnotatable._validate_annotation:len(None) for (copy-func)/(free-func) without options',
-     'what': "parse_comment_block raises TypeError(\"object of type 'NoneType' has no len()\") for an identifier "
-             "annotation (copy-func) or (free-func) written without an option: both names are in "
-             "GtkDocCommentBlock.valid_annotations but not in ALL_ANNOTATIONS, so _parse_annotation gives them the "
-             "options of an unknown annotation (None) and _do_validate_copy_func/_free_func call len(None)"},
     {'key': 'site:GtkDocAnnotatable.validate:annotations.position is None',
      'what': 'validate() diagnostics (unknown/unexpected annotation, option count, ...) carry no file/line at all '
              'when the part\'s annotations were continued on a further line (OrderedDict.copy() in _parse_annotations '
              'builds GtkDocAnnotations without position) or were created by a deprecated tag-style annotation '
              '(default GtkDocAnnotations() of the block)'},
-    {'key': 'site:GtkDocCommentBlockWriter.write:ACTION identifier written as block.name',
-     'what': 'GtkDocCommentBlockWriter.write emits the internal name "ACTION:Class:group.action" for an action block '
-             '(parsed from "Class|group.action"); that line is not an identifier for the parser (PROPERTY_RE takes it '
-             'as "ACTION:Class" + trailing text), so parse(write(parse(s))) is None instead of the block'},
     {'key': 'site:parse_comment_block:text before the closing token is re-parsed from the trimmed text',
      'what': 'when comment text precedes the closing token on the last line, parse_comment_block replaces that line by '
              'the trimmed text (COMMENT_BLOCK_END_RE group "comment": leading white space and the token removed) and '
              'every later diagnostic for it quotes the trimmed text with a caret column relative to it, not the '
              'source line'},
-    {'key': 'site:GtkDocCommentBlockWriter._serialize_annotations:empty option value written as bare key',
-     'what': 'an option written "key=" (e.g. "(attributes k=)", "(array length=)") is parsed without any diagnostic as '
-             'the value "" of that key, but GtkDocCommentBlockWriter._serialize_annotations tests "if value:" and writes '
-             'the bare key; parsing that gives the value None, so parse(write(parse(s))) differs from parse(s) '
-             '("(array zero-terminated=)" even changes meaning: invalid value -> zero-terminated)'},
-    {'key': 'site:GtkDocCommentBlockWriter.write:symbol whose name starts with SECTION/ACTION is written without annotations',
-     'what': 'GtkDocCommentBlockWriter.write tests block.name.startswith("SECTION") / startswith("ACTION") (no colon), so a '
-             'symbol such as "ACTION_TYPE_FOO: (skip)" is written as the bare line "ACTION_TYPE_FOO": its annotations '
-             'are lost (and "SECTIONX_FOO: (skip)" is written "SECTIONX_FOO", which parses as the section "X_FOO")'},
 ]
-KEY_LEN_NONE = PENDING_FINDINGS[0]['key']
-KEY_END_TEXT = PENDING_FINDINGS[3]['key']
-KEY_ACTION_WRITE = PENDING_FINDINGS[2]['key']
-KEY_NO_POSITION = PENDING_FINDINGS[1]['key']
-KEY_EMPTY_VALUE = PENDING_FINDINGS[4]['key']
-KEY_NAME_PREFIX = PENDING_FINDINGS[5]['key']
-_REAL_ACTION = re.compile(r'^ACTION:\w+:[\w-]+\.[\w-]+$')
-_COPYFREE = re.compile(r'[(<]\s*(copy-func|free-func)\s*[)>]', re.I)
+KEY_NO_POSITION = PENDING_FINDINGS[0]['key']
+KEY_END_TEXT = PENDING_FINDINGS[1]['key']
+# repaired in /repo (065a201, 902d172, a1e3aaa) and no longer suppressed: len(None) for (copy-func)/(free-func)
+# without option, empty option values written as bare keys, action identifiers and symbols named ACTION... /
+# SECTION... written in a form the parser does not read back.  Their inputs stay in corpus/ as regressions.
 
 
 def install_pending(ctx):
     for k in PENDING_FINDINGS:
         if not ctx.is_known(k['key']):
             ctx.known.append({'key': k['key'], 'what': k['what'], 'status': 'known', 'property': ctx.prop})
-
-
-def is_len_none_defect(exc, text):
-    return isinstance(exc, TypeError) and "'NoneType' has no len()" in str(exc) and _COPYFREE.search(text) is not None
-
-
-def empty_values_to_none(x):
-    """the same canonical value with every empty dict-option value replaced by None"""
-    if isinstance(x, dict):
-        if set(x.keys()) == {'dict'}:
-            return {'dict': [[k, (None if v == '' else v)] for k, v in x['dict']]}
-        return {k: empty_values_to_none(v) for k, v in x.items()}
-    if isinstance(x, list):
-        return [empty_values_to_none(v) for v in x]
-    return x
-
-
-def is_empty_value_defect(before, after):
-    """`after` is `before` with nothing changed except empty option values having become None"""
-    norm = empty_values_to_none(before)
-    return norm != before and after == norm
-
-
-def is_name_prefix_defect(b, b2):
-    """a block that is not an action / section but whose name starts like one, re-read differently"""
-    n = b['name']
-    if not (n.startswith('SECTION') or n.startswith('ACTION')):
-        return False
-    if n.startswith('SECTION:') or _REAL_ACTION.match(n):
-        return False
-    return b2 != b
